@@ -43,3 +43,92 @@ Section Compose.
     exists st'. exact Hrun.
   Qed.
 End Compose.
+
+(* ---------------------------------------------------------------------------------------------------
+   Instances: for every reader with a contract theorem, every history over its stream returns the
+   guest bytes — for every content of the backing files, every stream buffer size the format allows.
+   --------------------------------------------------------------------------------------------------- *)
+From DH Require Import Base.Table Model.Vhd Proofs.Vhd Model.Vdi Proofs.Vdi Model.Vhdx Proofs.Vhdx Model.Hds Proofs.Hds.
+From DH Require Model.Qcow2 Proofs.Qcow2 Spec.Qcow2 Model.Vmdk Proofs.Vmdk.
+
+Section Instances.
+  Context {B : Type}.
+  Variable zero : B.
+  Variables file data parent : Z -> B.
+  Variable infl : Z -> Z -> B.
+  Notation G := (guest zero file data parent infl).
+  Notation BK := (bytes_backend zero file data parent infl).
+
+  Theorem vhd_dyn_stream_bytes d align :
+    wf_dyn d -> 0 < align -> align mod 512 = 0 ->
+    forall ops, exists st',
+      brun (d_size d) align
+        (BK (fun off len => dyn_read d (fuel_for (cdiv (Z.min len (d_size d - off)) SECTOR)) off len)) binit ops =
+      Ok (st', map (array_out (G (Vhd.guest_src d))) (spec_run (d_size d) 0 ops)).
+  Proof.
+    intros Hwf Hal Ham. pose proof Hwf as (_ & Hsz & _).
+    apply (stream_returns_guest_bytes zero file data parent infl); [exact Hal|lia|].
+    now apply vhd_dyn_contract.
+  Qed.
+
+  Theorem vhd_fixed_stream_bytes size align :
+    0 <= size -> 0 < align -> align mod 512 = 0 ->
+    forall ops, exists st',
+      brun size align (BK (fun off len => Ok (fixed_read size off len))) binit ops =
+      Ok (st', map (array_out (G fixed_src)) (spec_run size 0 ops)).
+  Proof.
+    intros Hsz Hal Ham.
+    apply (stream_returns_guest_bytes zero file data parent infl); [exact Hal|exact Hsz|].
+    now apply vhd_fixed_contract.
+  Qed.
+
+  Theorem vhdx_stream_bytes x align :
+    geom_ok x -> states_ok x -> vhdx_wf_nodiff x -> 0 < align -> align mod x_ss x = 0 ->
+    forall ops, exists st',
+      brun (x_size x) align
+        (BK (fun off len => vhdx_read x (vhdx_fuel (cdiv (Z.min len (x_size x - off)) (x_ss x))) off len)) binit ops =
+      Ok (st', map (array_out (G (vhdx_src x))) (spec_run (x_size x) 0 ops)).
+  Proof.
+    intros Hg Hst Hwf Hal Ham.
+    apply (stream_returns_guest_bytes zero file data parent infl); [exact Hal| |now apply vhdx_contract].
+    destruct Hwf as (_ & Hsz & _). exact Hsz.
+  Qed.
+
+  Theorem hds_stream_bytes h align :
+    0 < h_cs h -> hds_wf h -> 0 < align ->
+    forall ops, exists st',
+      brun (h_size h) align (BK (fun off len => hds_read h (hds_fuel len) off len)) binit ops =
+      Ok (st', map (array_out (G (hds_src h))) (spec_run (h_size h) 0 ops)).
+  Proof.
+    intros Hcs Hwf Hal.
+    apply (stream_returns_guest_bytes zero file data parent infl); [exact Hal|apply Hwf|].
+    now apply hds_contract.
+  Qed.
+
+  Theorem qcow2_stream_bytes (im : Model.Qcow2.image) align :
+    Proofs.Qcow2.wf_image im -> Spec.Qcow2.conformant (Model.Qcow2.spec_of im) (Model.Qcow2.size_of im) ->
+    0 <= Model.Qcow2.size_of im -> 0 < align ->
+    forall ops, exists st',
+      brun (Model.Qcow2.size_of im) align
+        (BK (fun off len => Model.Qcow2.qcow2_read im (S (Z.to_nat (Z.min len (Model.Qcow2.size_of im - off)))) off len))
+        binit ops =
+      Ok (st', map (array_out (G (Model.Qcow2.guest_src im))) (spec_run (Model.Qcow2.size_of im) 0 ops)).
+  Proof.
+    intros Hwf Hc Hsz Hal.
+    apply (stream_returns_guest_bytes zero file data parent infl); [exact Hal|exact Hsz|].
+    now apply qcow2_contract.
+  Qed.
+
+  Theorem vmdk_sparse_stream_bytes (f : Model.Vmdk.vfile) (sp : Model.Vmdk.sparse) hp align :
+    Proofs.Vmdk.wf_sparse f sp -> 0 < align -> align mod 512 = 0 ->
+    forall ops, exists st',
+      brun (Model.Vmdk.sp_capacity sp * 512) align
+        (BK (fun off len => match Model.Vmdk.vmdk_read (Model.Vmdk.mk_vmdk [Model.Vmdk.XSparse f sp hp]) off len with
+                            | Ok p => Ok (Model.Vmdk.plan_of_x p) | Err => Err | Fuel => Fuel end)) binit ops =
+      Ok (st', map (array_out (G (Model.Vmdk.guest_src f sp 0 hp))) (spec_run (Model.Vmdk.sp_capacity sp * 512) 0 ops)).
+  Proof.
+    intros Hwf Hal Ham. pose proof Hwf as (_ & _ & Hcap & _).
+    apply (stream_returns_guest_bytes zero file data parent infl); [exact Hal|lia|].
+    now apply vmdk_sparse_contract.
+  Qed.
+End Instances.
